@@ -163,9 +163,23 @@ def run_c21(rnd, tier, v, stats):
                 script.append(1000)
         m.accept = list(script)
         dsts = [rnd.choice(["D", "D", "E"]) for _ in grams]
-        for g, d_ in zip(grams, dsts):
+        # what is queued: bytes, a fresh bytearray, or -- fan-out -- the SAME bytearray object as the previous entry (the content a
+        # destination must receive is what was queued, so an implementation may not consume a queued object in place)
+        objs, prev = [], None
+        for k in range(len(grams)):
+            r = rnd.random()
+            if r < 0.25 and isinstance(prev, bytearray):
+                grams[k] = bytes(prev)
+                obj = prev
+            elif r < 0.5:
+                obj = bytearray(grams[k])
+            else:
+                obj = grams[k]
+            objs.append(obj)
+            prev = obj
+        for g, d_ in zip(objs, dsts):
             m.gramit(g, d_)
-        inp = dict(grams=[g.decode() for g in grams], dsts=dsts, script=[s if isinstance(s, int) else "unreachable" for s in script])
+        inp = dict(grams=[g.decode() for g in grams], kinds=["same-object" if k and objs[k] is objs[k - 1] else type(objs[k]).__name__ for k in range(len(objs))], dsts=dsts, script=[s if isinstance(s, int) else "unreachable" for s in script])
         stats["distinct"].add(repr(inp))
         if it < 2:
             stats["samples"].append(inp)
